@@ -10,6 +10,7 @@
 from __future__ import annotations
 
 import ast
+import re
 
 from ..cfg import CFG, ENTRY, EXIT, header_parts
 from ..flow import Defs, Scope, iterations, nnf
@@ -108,6 +109,11 @@ def rule_all_operands(ctx: Ctx) -> None:
         r = d.resolve(e)
         names = {x.id for x in ast.walk(e) if isinstance(x, ast.Name)} | {x.id for x in ast.walk(r) if isinstance(x, ast.Name)}
         dep = bool(names & mutated_in_loop) or (vararg in names)
+        if not dep:  # through further locals (all definitions, in-place growth, loop variables)
+            from ..flow import dependence_text
+
+            closure = dependence_text(prod.node, e, depth=6)
+            dep = any(re.search(rf"\b{re.escape(nm)}\b", closure) for nm in mutated_in_loop | {vararg})
         ctx.add("1-all-operands", prod, e, dep, f"`{attr}` is accumulated over all operands" if dep else f"`{attr}` of the result is `{norm(r)[:50]}`: it does not depend on the operands", key=f"merged {attr}")
         src = ast.unparse(loop) + ast.unparse(r)
         own = f".{attr}" in src
@@ -184,9 +190,23 @@ def rule_arms(ctx: Ctx) -> None:
                 f"arm {i}: post-processing is not inline", key=f"arm{i}-order")
         for kind, st in seq:
             if kind == "constants":
-                overwrite = [x for x in ast.walk(st) if isinstance(x, ast.Assign) and any(isinstance(t_, ast.Subscript) for t_ in x.targets)] + \
+                par_s = {id(c_): p_ for p_ in ast.walk(st) for c_ in ast.iter_child_nodes(p_)}
+
+                def guarded_by_absence(x: ast.Assign) -> bool:
+                    """`if key not in d: d[key] = v` - the spelled-out setdefault."""
+                    t_ = next((t_ for t_ in x.targets if isinstance(t_, ast.Subscript)), None)
+                    y: ast.AST = x
+                    while t_ is not None and id(y) in par_s:
+                        child, y = y, par_s[id(y)]
+                        if isinstance(y, ast.If) and child in y.body and isinstance(y.test, ast.Compare) and len(y.test.ops) == 1 and isinstance(y.test.ops[0], ast.NotIn) \
+                                and norm(y.test.left) == norm(t_.slice) and norm(y.test.comparators[0]) == norm(t_.value):
+                            return True
+                    return False
+
+                absent_guarded = [x for x in ast.walk(st) if isinstance(x, ast.Assign) and any(isinstance(t_, ast.Subscript) for t_ in x.targets) and guarded_by_absence(x)]
+                overwrite = [x for x in ast.walk(st) if isinstance(x, ast.Assign) and any(isinstance(t_, ast.Subscript) for t_ in x.targets) and not guarded_by_absence(x)] + \
                             [x for x in ast.walk(st) if isinstance(x, ast.Call) and isinstance(x.func, ast.Attribute) and x.func.attr == "update" and "constants" in norm(x)]
-                ctx.tri("4-arms", gen, st, "setdefault" in norm(st) and not overwrite, bool(overwrite), "constants never override swept values (setdefault)",
+                ctx.tri("4-arms", gen, st, ("setdefault" in norm(st) or bool(absent_guarded)) and not overwrite, bool(overwrite), "constants never override swept values (setdefault)",
                         f"`{norm(overwrite[0])[:50] if overwrite else ''}`: constants overwrite swept values", key=f"constants-setdefault@{i}")
 
 
